@@ -91,7 +91,7 @@ Section C02_PANOC_LIVE.
   Notation Linit := (L_init psi_grad_full grad_psi P x_in).  (* L_0 if positive, else the clamped finite-difference estimate *)
 
   Hypothesis oracle_values : forall x, psi_grad psi_grad_full x = (ψ x, g x).
-  Hypothesis oracles_coherent : coherent psi_grad_full psi_yhat grad_L P.
+  Hypothesis oracles_coherent : coherent psi_grad_full psi_yhat grad_L grad_psi P.
   Hypothesis grad_length : forall x, length x = n -> length (g x) = n.
   Hypothesis quadratic_upper_bound : forall u d, length u = n -> length d = n ->
     ψ (vadd u d) <= ψ u + vdot (g u) d + Lf / 2 * vsqnorm d.
@@ -179,7 +179,7 @@ Section C02_PANOC_LIVE_KKT.
   Notation Linit := (L_init psi_grad_full grad_psi P x_in).
 
   Hypothesis oracle_values : forall x, psi_grad psi_grad_full x = (ψ x, g x).
-  Hypothesis oracles_coherent : coherent psi_grad_full psi_yhat grad_L P.
+  Hypothesis oracles_coherent : coherent psi_grad_full psi_yhat grad_L grad_psi P.
   Hypothesis grad_length : forall x, length x = n -> length (g x) = n.
   Hypothesis quadratic_upper_bound : forall u d, length u = n -> length d = n ->
     ψ (vadd u d) <= ψ u + vdot (g u) d + Lf / 2 * vsqnorm d.
@@ -253,7 +253,7 @@ Section C02_PANOC_QP.
   Hypothesis exact_kkt_stationarity : vplus (Qmul xs) c = map Ropp rs.
   Hypothesis exact_kkt_C : in_boxv lb ub xs /\ in_ncone lb ub xs rs.
   Hypothesis oracle_values : forall x, psi_grad psi_grad_full x = (ψ x, g x).
-  Hypothesis oracles_coherent : coherent psi_grad_full psi_yhat grad_L P.
+  Hypothesis oracles_coherent : coherent psi_grad_full psi_yhat grad_L grad_psi P.
   Hypothesis grad_length : forall x, length x = n -> length (g x) = n.
   Hypothesis quadratic_upper_bound : forall u d, length u = n -> length d = n ->
     ψ (vadd u d) <= ψ u + vdot (g u) d + Lf / 2 * vsqnorm d.
@@ -374,7 +374,7 @@ Proof.
   apply (C02_panoc_returns_converged (fun x => (lv_ψ x, x, [])) (fun x => (lv_ψ x, [])) (fun x _ => x) (fun x => x) [None] [None]
            dir_apply has_initial lv_P [1] [] [] [] 18 lv_ψ (fun x => x) 1 1 0) with (nL := 2%nat) (nT := 3%nat).
   - intros x. reflexivity.
-  - intros x. reflexivity.
+  - intros x. split; reflexivity.
   - intros x Hx. exact Hx.
   - intros [|a [|? ?]] [|b [|? ?]]; cbn [length]; intros; try discriminate. unfold lv_ψ. cbn. lra.
   - intros z _. unfold lv_ψ. pose proof (vsqnorm_nonneg z). lra.
@@ -418,7 +418,7 @@ Proof.
   apply (C02_zerofpr_returns_converged (fun x => (lv_ψ x, x, [])) (fun x => (lv_ψ x, [])) (fun x _ => x) (fun x => x) [None] [None]
            dir_apply has_initial lv_P [1] [] [] [] 18 lv_ψ (fun x => x) 1 1 0) with (nL := 2%nat) (nT := 3%nat).
   - intros x. reflexivity.
-  - intros x. reflexivity.
+  - intros x. split; reflexivity.
   - intros x Hx. exact Hx.
   - intros [|a [|? ?]] [|b [|? ?]]; cbn [length]; intros; try discriminate. unfold lv_ψ. cbn. lra.
   - intros z _. unfold lv_ψ. pose proof (vsqnorm_nonneg z). lra.
@@ -477,7 +477,7 @@ Proof.
     + unfold in_box, lb_ok, ub_ok. cbn. lra.
     + cbn. intros; lra.
   - intros x. reflexivity.
-  - intros x. reflexivity.
+  - intros x. split; reflexivity.
   - intros x Hx. exact Hx.
   - intros [|a [|? ?]] [|b [|? ?]]; cbn [length]; intros; try discriminate. unfold lv_ψ. cbn. lra.
   - intros [|a [|? ?]] [|b [|? ?]]; cbn [length]; intros; try discriminate. cbn. nra.
